@@ -134,7 +134,7 @@ class State:
     def clone(self):
         s = State(dict(self.env), list(self.pc), {k: dict(v) for k, v in self.heap.items()}, self.old, self.nxt)
         s.oldheap = self.oldheap
-        s.decided = dict(getattr(self, "decided", {}))
+        s.plan, s.plan_pos = list(getattr(self, "plan", [])), getattr(self, "plan_pos", 0)
         s.trace = list(self.trace)
         return s
 
@@ -611,37 +611,40 @@ class Engine:
             raise EngineError(f"ghost statement must be 'name = expr': {text}")
         st.env[node.targets[0].id] = self.ev(node.value, st, True)
 
-    def exec_stmt(self, s, st):
+    def exec_stmt(self, s, st, plan=()):
+        """execute one statement; an expression that needs a case distinction (Split) makes the statement re-run once per case.
+        Decisions are positional (the k-th case distinction met while executing this statement takes the k-th planned value):
+        re-evaluated conditions may contain fresh symbols, so they cannot be recognised by their text."""
         snap = st.clone()
         nobl = len(self.obls)
+        st.plan, st.plan_pos = list(plan), 0
         try:
             return self.exec_stmt1(s, st)
-        except Split as sp:
+        except Split:
+            if len(plan) > 12:
+                raise EngineError("too many case distinctions in one statement")
             del self.obls[nobl:]
             self.pending_raises = []
             outs = []
             for val in (True, False):
-                st2 = snap.clone()
-                st2.assume(sp.cond if val else z3.Not(sp.cond))
-                st2.decided = dict(getattr(snap, "decided", {}))
-                st2.decided[sp.cond.get_id()] = (val, sp.cond)     # the term is kept alive: its id cannot be recycled
-                outs += self.exec_stmt(s, st2)
+                outs += self.exec_stmt(s, snap.clone(), tuple(plan) + (val,))
             return outs
 
     def decide(self, cond, st):
-        """truth of a condition already split on (None if not yet)"""
+        """truth of a condition that values cannot carry: from the plan of the enclosing statement, or None (-> Split)"""
         c = z3.simplify(cond)
         if z3.is_true(c):
             return True
         if z3.is_false(c):
             return False
-        d = getattr(st, "decided", {})
-        hit = d.get(cond.get_id())
-        if hit is not None and hit[1].eq(cond):
-            return hit[0]
-        for val, term in d.values():
-            if term.eq(cond):
-                return val
+        k = self.literally_known(c, st)
+        if k is not None:
+            return k
+        if getattr(st, "plan_pos", 0) < len(getattr(st, "plan", [])):
+            val = st.plan[st.plan_pos]
+            st.plan_pos += 1
+            st.assume(cond if val else z3.Not(cond))
+            return val
         return None
 
     def exec_stmt1(self, s, st):
@@ -1361,21 +1364,26 @@ class Engine:
 
     def ex_IfExp(self, e, st, spec):
         c = self.truthy(self.ev(e.test, st, spec), st)
-        d = self.decide(c, st)
-        if d is True:
+        cs = z3.simplify(c)
+        known = True if z3.is_true(cs) else (False if z3.is_false(cs) else self.literally_known(cs, st))
+        if known is True:
             return self.ev(e.body, st, spec)
-        if d is False:
+        if known is False:
             return self.ev(e.orelse, st, spec)
         has_call = any(isinstance(n, (ast.Call, ast.Subscript, ast.BinOp)) for b in (e.body, e.orelse) for n in ast.walk(b))
-        if has_call and not spec:
-            # a branch with calls / subscripts / divisions is only evaluated on the path where it is taken
+        if not (has_call and not spec):
+            a = self.ev(e.body, st, spec)
+            b = self.ev(e.orelse, st, spec)
+            try:
+                return V.ite(c, a, b)
+            except EngineError:
+                if spec:
+                    raise
+        # a branch with calls / subscripts / divisions (or values that cannot be merged) is evaluated only on the path taken
+        d = self.decide(c, st)
+        if d is None:
             raise Split(c)
-        a = self.ev(e.body, st, spec)
-        b = self.ev(e.orelse, st, spec)
-        try:
-            return V.ite(c, a, b)
-        except EngineError:
-            raise Split(c)
+        return self.ev(e.body if d else e.orelse, st, spec)
 
     def ex_BinOp(self, e, st, spec):
         a = self.ev(e.left, st, spec)
